@@ -215,8 +215,80 @@ def dyn_items(tier):
 
 # ------------------------------------------------------------------------------------------------
 
+# ------------------------------------------------------------------------------------------------
+# mean-field TEMPO with several systems, each written in its OWN basis V_k (different diagonalising transforms)
+
+MFM = [((1.0, -1.0), (1.0, 0.0, -1.0)), ((0.0, 1.0), (1.0, 1.0, 0.0)), ((1.0, 1.0, -1.0), (0.5, -0.5), (0.0, 0.0, 1.0))]
+
+
+def mf_multi_case(args):
+    idx, order, mem, unique = args
+    from . import models as M_
+    evs = [MFM[idx][i] for i in order]
+
+    def run(rotated):
+        systems, baths, states, vs = [], [], [], []
+        for k, ev in enumerate(evs):
+            d = len(ev)
+            v = M_.generic_unitary(d, 21 + 3 * order[k]) if rotated else np.eye(d, dtype=complex)
+            rot = lambda a, v=v: v @ a @ v.conj().T
+            h0, h1 = rot(M_.generic_herm(d, 3 + order[k], 0.6)), rot(M_.generic_herm(d, 5 + order[k], 0.4))
+            systems.append(oq.TimeDependentSystemWithField(lambda t, a, h0=h0, h1=h1: h0 + np.real(a) * h1))
+            baths.append(oq.Bath(rot(np.diag(np.array(ev, dtype=complex))),
+                                 oq.PowerLawSD(alpha=0.4, zeta=1.0, cutoff=3.0, cutoff_type="exponential",
+                                               temperature=0.3 + 0.2 * order[k])))
+            states.append(rot(M_.generic_state(d, 2 + order[k])))
+            vs.append(v)
+        probes = [rot_ for rot_ in [vs[k] @ np.diag(np.arange(len(ev), dtype=complex)) @ vs[k].conj().T for k, ev in enumerate(evs)]]
+        mfs = oq.MeanFieldSystem(systems, lambda t, st, a: -0.2 * a - 0.3j * sum(np.trace(p @ s) for p, s in zip(probes, st)))
+        kw = {"dkmax": None} if mem == "full" else {"dkmax": 2, "add_correlation_time": 0.3}
+        prm = oq.TempoParameters(dt=0.2, epsrel=EPS, subdiv_limit=None, **kw)
+        for attempt in range(6):
+            try:
+                d_ = oq.MeanFieldTempo(mfs, baths, prm, states, 0.4 + 0.1j, start_time=0.0, unique=unique).compute(
+                    5.4 * 0.2, progress_type="silent")
+                break
+            except np.linalg.LinAlgError:
+                continue
+        return [np.array(sd.states) for sd in d_.system_dynamics], np.array(d_.fields), vs
+    try:
+        ref, fref, _ = run(False)
+        got, fgot, vs = run(True)
+    except Exception as ex:  # noqa
+        return {"cls": f"mf-multi|{len(evs)}-systems-own-bases|exception:{type(ex).__name__}", "what": str(ex)[:200], "dev": None,
+                "move": 0.0}
+    dev = np.abs(fgot - fref).max()
+    for k in range(len(evs)):
+        back = np.einsum("ij,tjk,kl->til", vs[k].conj().T, got[k], vs[k])
+        dev = max(dev, np.abs(back - ref[k]).max())
+    move = max(np.abs(s_ - s_[0]).max() for s_ in ref)
+    cls = None
+    if dev > tol(EPS):
+        cls = f"mf-multi|{len(evs)}-systems-own-bases|{mem}|unique={unique}|state-mismatch"
+    return {"cls": cls, "what": f"couplings {evs}, every system in its own basis: V_k^dag rho'_k V_k differs from rho_k by {dev:.2e}",
+            "dev": float(dev), "move": float(move)}
+
+
+def mf_multi_cases():
+    out = []
+    for idx, evs in enumerate(MFM):
+        for order in itertools.permutations(range(len(evs))):
+            for mem in ("full", "dkmax2+tau"):
+                for unique in (False, True):
+                    out.append((idx, order, mem, unique))
+    return out
+
+
 def run(tier, seed):
     rep = Report(LEVEL)
+    mmc = mf_multi_cases()
+    mmr = pmap(mf_multi_case, mmc, seed=seed)
+    mm_max = 0.0
+    for c, r in zip(mmc, mmr):
+        if r["cls"]:
+            rep.add(Violation(r["cls"], r["what"], {"part": "mfmulti", "args": [c[0], list(c[1]), c[2], c[3]]}))
+        elif r["dev"] is not None:
+            mm_max = max(mm_max, r["dev"])
     bcases = bath_cases()
     bres = pmap(bath_case, bcases, seed=seed)
     bath_keys = set()
@@ -264,7 +336,9 @@ def run(tier, seed):
     samples = [{"key": r["key"], "dev": r["dev"], "bath_influence": r["infl"], "violation": r["cls"]}
                for r in (flat[0], flat[len(flat) // 2], flat[-1])]
     rep.coverage = {
-        "evaluations": len(bcases) + n_eval,
+        "evaluations": len(bcases) + n_eval + len(mmc),
+        "mean_field_multi_system_own_bases": {"cases": len(mmc), "max_dev": mm_max,
+                                              "rule": "2-3 systems, each in its own generic basis, all orders x memory x unique"},
         "distinct_nontrivial": len(bath_keys) + len(keys),
         "bath_level": {"cases": len(bcases), "nondiagonal": len(bath_keys),
                        "nondiagonal_with_repeated_eigenvalue": bath_nd_rep,
@@ -308,6 +382,10 @@ def run(tier, seed):
 
 
 def replay(rp):
+    if rp.get("part") == "mfmulti":
+        a = rp["args"]
+        r = mf_multi_case((a[0], tuple(a[1]), a[2], a[3]))
+        return {"obs": {"dev": None if r["dev"] is None else round(r["dev"], 10)}, "violation": r["cls"]}
     if rp["part"] == "bath":
         r = bath_case((tuple(rp["ev"]), rp["scale"], rp["V"]))
         return {"obs": {"devs": {k: round(v, 12) for k, v in r["devs"].items()}, "what": r["what"] and r["cls"]},
